@@ -1,3 +1,3 @@
-CONSTANTS Scope = "small" OneByOne = FALSE Mutant = "none"
+CONSTANTS Scope = "small" OneByOne = FALSE Mutant = "none" Pick = {}
 SPECIFICATION Spec
 INVARIANT Emit
